@@ -415,8 +415,10 @@ func RunC16(t *testing.T, spec kernel.Spec) *kernel.Outcome {
 				return d.start(ch)
 			case x < 8:
 				return d.decide(ch)
-			case x < 15:
+			case x < 13:
 				return d.poll(ch)
+			case x < 15:
+				return d.race(ch)
 			case x < 17:
 				var dur time.Duration
 				switch ch.Int(3) {
